@@ -2,6 +2,7 @@
 # try_kept.sh <seed id, e.g. C19-B> <PROP> [tier] : apply /verif/seeded/<id>/patch.diff to a scratch worktree, run the check there, undo.
 id=$1; p=$2; tier=${3:-quick}
 S=/tmp/repo-seed
+exec 9>/tmp/try_seed.lock; flock 9    # one scratch worktree: serialise concurrent callers
 cd /verif
 if [ ! -d $S ]; then git -C /repo worktree add --detach $S HEAD -q; fi
 git -C $S checkout -q -- . ; git -C $S checkout -q --detach $(git -C /repo rev-parse HEAD)
